@@ -23,7 +23,7 @@ func falseEdgeStarts(fx *Facts, call *ssa.Call) []cfgPos {
 	for _, b := range fn.Blocks {
 		for _, s := range b.Succs {
 			if fx.edgeEstablishes(b, s, func(f Fact) bool { return !f.Pol && f.T.V == ssa.Value(call) }) {
-				out = append(out, cfgPos{s, 0})
+				out = append(out, cfgPos{B: s, I: 0})
 			}
 		}
 	}
@@ -81,7 +81,7 @@ func runC03(c *Ctx) {
 			for _, b := range fn.Blocks {
 				for _, s := range b.Succs {
 					if fx.edgeEstablishes(b, s, func(f Fact) bool { return f.Pol && f.T.V == ssa.Value(call) }) {
-						if _, _, found := reachAvoiding([]cfgPos{{s, 0}}, func(x ssa.Instruction) bool { return x == h.Instrs[0] }, isReturn, nil); found {
+						if _, _, found := reachAvoiding([]cfgPos{{B: s, I: 0}}, func(x ssa.Instruction) bool { return x == h.Instrs[0] }, isReturn, nil); found {
 							succStays = true
 						}
 					}
